@@ -186,9 +186,27 @@ def ntokens(src: str) -> int:
     return n
 
 
+def blank_comments(src: str) -> str:
+    """replace end-of-line comments by nothing (node positions unchanged); tokenised inside parentheses so that a
+    fragment with bare line breaks tokenises"""
+    lines = src.split('\n')
+    try:
+        toks = list(tokenize.generate_tokens(io.StringIO('(\n' + src + '\n)').readline))
+    except (tokenize.TokenError, IndentationError, SyntaxError):
+        return src
+    for t in toks:
+        if t.type == tokenize.COMMENT:
+            ln = t.start[0] - 2
+            if 0 <= ln < len(lines):
+                lines[ln] = lines[ln][:t.start[1]].rstrip()
+    return '\n'.join(lines)
+
+
 def embed_text(src: str, emb: dict) -> str:
     if emb.get('bs'):
-        src = src.replace('\n', '\\\n')
+        src = blank_comments(src)
+        body = src.rstrip('\n')
+        src = body.replace('\n', '\\\n') + src[len(body):]
     if emb['dca']:
         src = '\n'.join(' ' * emb['dca'] + ln for ln in src.split('\n'))
     return emb['pre'] + src + emb['post']
